@@ -106,6 +106,23 @@ META = {
         level_text="Online monitor over ~10^5 (quick) / 10^7 (thorough) generated tween histories of the real Parameter/Tweener code with an independent oracle; exploration of an unbounded input space, not a proof.",
         level_note="Trusts the harness reference easing implementation and the MockInfoBuilder-provided clock info as a faithful stand-in for real clocks (C05 covers the real ones).",
     ),
+    "C07": dict(
+        level="exploration",
+        technique="runtime monitoring: history checker (register-with-consume linearizability, unique self-checking payloads) over a probe channel built on the public kira::command module, explored under a controlled scheduler (all write/read orders) and as free-running two-thread stress (also under ThreadSanitizer and Miri); plus a table-driven monitor of every real command kind",
+        design_ref="DESIGN.md §3 C07",
+        rule=("Monitor A: writer thread issuing w self-checking 64-byte commands with unique sequence numbers, reader thread reading r times (+ one read after the writer stopped), with and without writes before the first read; all interleavings at write/read granularity enumerated for w,r <= 4 (quick) / 6 (thorough); "
+              "free-running stress with random spin delays (1.6M writes quick). Checker: every delivered value has a valid checksum and was written; sequence numbers strictly increase; a read returns the newest command completely written before it began (or one written during it), None only if nothing newer was completely written; the last command is delivered after the writer stops. "
+              "Monitor B: for each of the 65 command kinds in the table (static 9, streaming 9 incl. the 3 decoder-side ones, sub/spatial track, send, main, listener 2, clock 3, LFO 5, tweener 1, filter 4, EQ 4, delay 2, distortion 3, reverb 4, compressor 6, volume/panning control) with three distinguishable settings: "
+              "issued once -> the observable (output level L/R, position, state, clock time) equals that of a reference scene built with / commanded to that setting; for instantaneous kinds already within the very next callback, also when written before the resource's first callback; burst of two -> only the last; one-shot seeks applied once. "
+              "Pairs of kinds / resources issued in one interval do not interfere. Distinct cases: schedule traces, command kinds."),
+        domain="scheduler granularity = one CommandWriter::write / CommandReader::read; interleavings inside triple_buffer are sampled by stress/TSan/Miri, not enumerated",
+        assumptions=["Monitor A exercises the same kira::command code every handle uses, with a probe payload", "decoder-side commands are observed after the 16384-frame ring of earlier-decoded audio has played out"],
+        require_equal=[("B_command_kinds_covered", "B_command_kinds_in_table")],
+        quick=[rel(30)],
+        thorough=[rel(600), dict(engine="tsan", shards=4, budget=200), dict(engine="miri", shards=8, budget=240, parallel=8)],
+        level_text="History checking of the real command channel under enumerated and free-running interleavings plus a complete table of command kinds each checked for effect, promptness, last-write-wins and not-lost-before-first-callback; exploration.",
+        level_note="Trusts the scheduler and the logical clock used to order history events (fetch_add on one atomic).",
+    ),
     "C09": dict(
         level="exploration",
         technique="runtime monitoring: differential lock-step execution of the real streaming and static Box<dyn Sound> on identical data, settings and command histories; decoder kept ahead via dec.* hooks (logical waiting)",
